@@ -461,6 +461,8 @@ PROPS = {
             B("w_expr.cpp", "expr", cfg="S20dv", quick=0, thorough=60, params="faults=1", oracles=["c01.", "c02.", "c04.", "c05.", "c12.", "c20."] + RT_ALL),
             B("w_stream.cpp", "stream", cfg="S17d", quick=0, thorough=60, oracles=["c13.", "c01.", "c02."] + RT_ALL),
             B("w_coro.cpp", "coro", cfg="S20rv", quick=0, thorough=60, oracles=["c10.", "c11.", "c01.", "c02."] + RT_ALL),
+            B("w_coro.cpp", "coro", cfg="S20d", quick=5, thorough=60, oracles=["c10.", "c11.", "c01.", "c02.", "c20."] + RT_ALL),
+            B("w_coro.cpp", "coro", cfg="S20dv", quick=0, thorough=60, oracles=["c10.", "c11.", "c01.", "c02.", "c20."] + RT_ALL),
         ],
         level_text=("(1) Trace equality: the same seeds (same plan tapes) of the sender interpreter (with throwing callables, throwing copies and "
                     "connects, external stop), the stream pipelines and the coroutine interpreter are executed with the non-preemptive "
